@@ -62,6 +62,8 @@ val bind : 'a1 res -> ('a1 -> 'a2 res) -> 'a2 res
 
 val guard : bool -> nat -> unit res
 
+val memb : nat -> nat list -> bool
+
 val remove1 : nat -> nat list -> nat list
 
 val list_eqb : nat list -> nat list -> bool
@@ -157,6 +159,19 @@ type endk =
 | EndPanicked
 | EndCancelled
 
+type bwhat =
+| BPubBegin
+| BHolds
+| BTarget
+| BPubEnd
+| BSub
+| BUnsub
+
+type topk =
+| TPublish
+| TSubscribe
+| TUnsubscribe
+
 type regk =
 | RgFrom
 | RgSetup
@@ -206,7 +221,7 @@ type event =
 | EvReg of oid * nat * regk * nat * hid
 | EvSubscribe of aid * nat * oid
 | EvDeliver of aid * nat * nat
-| EvPubCopy of nat * oid * nat
+| EvPubCopy of nat * oid * nat * oid * aid * hid
 | EvRelease of aid * nat
 | EvQuery of nat * hid * bool * bool
 | EvCrash of aid
@@ -214,6 +229,9 @@ type event =
 | EvBcastBegin of aid * nat
 | EvTimerSleep of aid * nat * nat
 | EvProbe of aid * oid
+| EvBroker of aid * bwhat * aid * hid
+| EvTopicOp of oid * nat * topk * nat * nat
+| EvTopicRet of oid * bool
 
 val dec_bool : nat -> bool
 
@@ -236,6 +254,10 @@ val dec_hstat : nat -> hstat option
 val dec_cbstat : nat -> cbstat option
 
 val dec_tkind : nat -> tkind option
+
+val dec_bwhat : nat -> bwhat option
+
+val dec_topk : nat -> topk option
 
 val dec_endk : nat -> endk option
 
@@ -661,3 +683,27 @@ val m04_step : m04 -> event -> m04 option
 val m04_run : m04 -> event list -> m04 option
 
 val chk_C04 : event list -> bool
+
+type fanout = { f_held : (aid * hid) list; f_rem : aid list;
+                f_served : aid list; f_cur : (aid * hid) option;
+                f_src : oid option }
+
+type m09 = { tbl : aid list map0; fan : fanout map0; cop : aid map0 }
+
+val m09_init : m09
+
+val delm : 'a1 map0 -> nat -> 'a1 map0
+
+val table : m09 -> aid -> aid list
+
+val rm : aid -> aid list -> aid list
+
+val held_by : fanout -> aid -> bool
+
+val pair_in : aid -> hid -> (aid * hid) list -> bool
+
+val m09_step : m09 -> event -> m09 option
+
+val m09_run : m09 -> event list -> m09 option
+
+val chk_C09 : event list -> bool
